@@ -82,6 +82,9 @@
 (*                          kills nor wedges the registration: it is       *)
 (*                          skipped, or the connection is dropped and      *)
 (*                          re-registered.                                 *)
+(*   KeepsRegistration      the listener gives up a registration only when *)
+(*                          the broker connection ended or a message was   *)
+(*                          unreadable ("ignore unexpected messages").     *)
 (*   StoppedClean           when Run has returned the broker connections   *)
 (*                          are closed and Contacts() is empty; no         *)
 (*                          registration starts after the context ended.   *)
@@ -251,8 +254,11 @@ LRead(b) ==
               /\ inq' = [inq EXCEPT ![b] = Tail(@)]
               /\ UNCHANGED <<lst, registered, conns>>
          [] m.k \in {"alive", "unknown"} ->
-              /\ inq' = [inq EXCEPT ![b] = Tail(@)]
-              /\ UNCHANGED <<lst, registered, conns, req>>
+              /\ UNCHANGED req
+              /\ IF m.k = "unknown" /\ "DropOnUnknown" \in Bug
+                 THEN DropConn(b, "idle")
+                 ELSE /\ inq' = [inq EXCEPT ![b] = Tail(@)]      \* "ignore unexpected messages"
+                      /\ UNCHANGED <<lst, registered, conns>>
          [] m.k = "malformed" ->
               /\ UNCHANGED req
               /\ IF "WedgeOnMalformed" \in Bug
@@ -421,6 +427,13 @@ StoppedClean ==
 \* at most one listener-side connection per broker is open at a time
 OneConnPerBroker ==
   \A b \in Brokers : \A i \in DOMAIN conns[b] : (conns[b][i].l = "open") => i = Cur(b)
+
+\* the listener gives up a registration only when the broker's connection ended, a message
+\* was unreadable, or the context ended -- never because of a well-formed message
+KeepsRegistration ==
+  [][\A b \in Brokers :
+       (lst[b] = "up" /\ lst'[b] \notin {"up", "stopped"}) =>
+          (inq[b] # <<>> /\ Head(inq[b]).k \in {"eof", "malformed"})]_vars
 
 BVars(b) == <<lst[b], mem[b], registered[b], refused[b], conns[b], ngrant[b], inq[b], req[b], wr[b], ticks[b], nmsg[b], hbc[b]>>
 Independent == [][\E b \in Brokers : \A o \in Brokers \ {b} : BVars(o)' = BVars(o)]_vars
